@@ -223,6 +223,8 @@ func (w *smcWorld) advance(d time.Duration) {
 		w.e.Quiesce()
 		w.e.Advance(d)
 	}
+	// library timers due at this instant act first, then the peer's deliveries
+	w.e.Quiesce()
 	w.flush()
 	w.e.Quiesce()
 }
@@ -702,4 +704,334 @@ func c12Run(e *Env) {
 		return
 	}
 	smcAfter(w, s)
+}
+
+// ---------------------------------------------------------------- C13: watchdog (client half)
+
+type dwPlan struct {
+	kind  string // ack, ack-retrans, fail-then-ack, both, late, silent
+	j     int
+	delay time.Duration
+}
+
+type dwTx struct {
+	at  time.Duration
+	hbh uint32
+	raw []byte
+}
+
+func drawDwPlans(w *smcWorld, n int) []dwPlan {
+	t := w.e.T
+	var out []dwPlan
+	for c := 0; c < n; c++ {
+		p := dwPlan{kind: "ack"}
+		switch t.Pick(6, 2, 2, 2, 2, 1) {
+		case 1:
+			if w.R >= 1 {
+				p.kind, p.j = "ack-retrans", t.Range(1, w.R)
+			}
+		case 2:
+			p.kind = "fail-then-ack"
+		case 3:
+			if w.R >= 1 {
+				p.kind = "both"
+			}
+		case 4:
+			if w.R >= 1 {
+				p.kind = "late"
+			}
+		case 5:
+			p.kind = "silent"
+		}
+		p.delay = []time.Duration{0, w.I / 2, w.I - 1, time.Microsecond}[t.Draw(4)]
+		out = append(out, p)
+		if p.kind == "silent" {
+			break
+		}
+	}
+	return out
+}
+
+// c13Client runs the watchdog phase; forC14 adds a termination and the leak check.
+func c13Client(e *Env, forC14 bool) {
+	t := e.T
+	e.TrustWait = true
+	w := newSmcWorld(e, true)
+	s := hsScript{answerCER: 1, ceaKind: "success", delay: time.Duration(t.Draw(3)) * w.I / 4, delayClass: "quick"}
+	if !smcHandshake(w, s) {
+		w.teardown()
+		return
+	}
+	w.mu.Lock()
+	hsAt := w.dialAt
+	w.mu.Unlock()
+	nCycles := t.Pick(2, 3, 3, 1) * 3
+	if t.Chance(1, 6) {
+		nCycles = 22 // bounded liveness: a responsive peer is spared for many cycles
+	}
+	if nCycles == 0 {
+		nCycles = 1
+	}
+	plans := drawDwPlans(w, nCycles)
+	e.Act("plans", "%d cycles, last=%s", len(plans), plans[len(plans)-1].kind)
+	var txs []dwTx
+	cycleOf := map[uint32]int{}
+	txInCycle := map[int]int{}
+	closedAt := time.Duration(-1)
+	limit := w.now() + time.Duration(len(plans)+2)*(w.W+time.Duration(w.R+2)*w.I)
+	term := ""
+	if forC14 {
+		term = []string{"peer-eof", "rst", "local-close"}[t.Draw(3)]
+	}
+	for steps := 0; steps < 2000; steps++ {
+		e.T.Mark()
+		for _, o := range w.collect() {
+			if o.msg.Cmd != cmdDW || o.msg.Flags&0x80 == 0 {
+				continue
+			}
+			c, seen := cycleOf[o.msg.HbH]
+			if !seen {
+				c = len(cycleOf)
+				cycleOf[o.msg.HbH] = c
+			}
+			r := txInCycle[c]
+			txInCycle[c]++
+			txs = append(txs, dwTx{o.at, o.msg.HbH, o.raw})
+			e.Act("dwr", "cycle %d tx %d t=%v", c, r, o.at)
+			oh, or := o.msg.find(avpOriginHost), o.msg.find(avpOriginRealm)
+			if oh == nil || or == nil || string(oh.Data) != smcHost || string(or.Data) != smcRealm {
+				e.Fail("C13/dwr-identity", "a DWR does not carry the configured identity")
+				w.teardown()
+				return
+			}
+			if c >= len(plans) {
+				continue // beyond the script: stay silent
+			}
+			p := plans[c]
+			switch p.kind {
+			case "ack":
+				if r == 0 {
+					w.schedule(p.delay, serverDWA(o.msg, 2001).Bytes(), "dwa:2001")
+				}
+			case "ack-retrans":
+				if r == p.j {
+					w.schedule(p.delay, serverDWA(o.msg, 2001).Bytes(), "dwa:2001")
+				}
+			case "fail-then-ack":
+				if r == 0 {
+					w.schedule(p.delay, serverDWA(o.msg, 5012).Bytes(), "dwa:5012")
+					e.Fault("dwa-failure-code")
+				} else if r == 1 {
+					w.schedule(p.delay, serverDWA(o.msg, 2001).Bytes(), "dwa:2001")
+				}
+			case "both":
+				if r <= 1 {
+					w.schedule(w.I+time.Millisecond, serverDWA(o.msg, 2001).Bytes(), "dwa:2001")
+					e.Fault("dwa-surplus")
+				}
+			case "late":
+				if r == 0 {
+					w.schedule(w.I+w.I/3, serverDWA(o.msg, 2001).Bytes(), "dwa:2001")
+					e.Fault("dwa-late")
+				}
+			case "silent":
+				e.Fault("peer-silent")
+			}
+		}
+		if e.Failed() {
+			break
+		}
+		if cl, at := w.sc.ClosedAt(); cl {
+			closedAt = at
+			break
+		}
+		if len(cycleOf) >= len(plans) && plans[len(plans)-1].kind != "silent" && len(w.outbox) == 0 {
+			// the script is over and the last cycle was acknowledged
+			last := len(cycleOf) - 1
+			if txInCycle[last] > 0 && w.now() > txs[len(txs)-1].at+w.I {
+				break
+			}
+		}
+		if w.now() > limit {
+			break
+		}
+		step := w.W
+		if w.I > step {
+			step = w.I
+		}
+		w.advance(step) // returns at the next library write or due delivery, whichever is first
+	}
+	if !e.Failed() {
+		c13Check(w, plans, txs, hsAt, closedAt)
+	}
+	if forC14 && !e.Failed() {
+		// end the connection, then every goroutine started on its behalf must leave
+		e.Probe("term:" + term)
+		switch term {
+		case "peer-eof":
+			w.sc.EndRead(io.EOF, false)
+		case "rst":
+			w.sc.EndRead(errSimReset, true)
+		case "local-close":
+			w.mu.Lock()
+			c := w.conn
+			w.mu.Unlock()
+			if c != nil {
+				c.Close()
+			}
+		}
+		e.Quiesce()
+		before := len(w.sc.WriteRecs())
+		e.Advance(3*w.W + time.Duration(w.R+3)*w.I)
+		e.Quiesce()
+		e.Advance(3 * w.W)
+		e.Quiesce()
+		if left := e.LibGoroutines(); len(left) > 0 {
+			what := "other"
+			if strings.Contains(left[0], "watchdog") {
+				what = "watchdog"
+			}
+			e.Fail("C14/goroutine-leak/"+what+"/term="+term, "the connection ended (%s) and %d library goroutine(s) are still there %v of fake time later:\n%s", term, len(left), 6*w.W, short(left[0], 700))
+		}
+		_ = before
+		return
+	}
+	w.teardown()
+}
+
+// c13Check replays the reference watchdog timeline (DESIGN appendix A.6) against the observation.
+func c13Check(w *smcWorld, plans []dwPlan, txs []dwTx, hsAt, closedAt time.Duration) {
+	e := w.e
+	// success DWA delivery instants
+	var acks []time.Duration
+	for _, d := range w.delivered {
+		if d.what == "dwa:2001" {
+			acks = append(acks, d.at)
+		}
+	}
+	// group transmissions into cycles by hop-by-hop id, in order
+	type cyc struct {
+		hbh uint32
+		at  []time.Duration
+		raw [][]byte
+	}
+	var cycles []*cyc
+	for _, tx := range txs {
+		if len(cycles) == 0 || cycles[len(cycles)-1].hbh != tx.hbh {
+			for _, c := range cycles {
+				if c.hbh == tx.hbh {
+					e.Fail("C13/stale-dwr-id", "a DWR reuses the hop-by-hop id of an earlier watchdog cycle")
+					return
+				}
+			}
+			cycles = append(cycles, &cyc{hbh: tx.hbh})
+		}
+		c := cycles[len(cycles)-1]
+		c.at = append(c.at, tx.at)
+		c.raw = append(c.raw, tx.raw)
+	}
+	if len(cycles) == 0 {
+		if closedAt >= 0 {
+			e.Fail("C13/closed-without-probing", "the client closed the connection at %v without having sent a DWR", closedAt)
+		} else {
+			e.Fail("C13/no-dwr", "watchdog enabled, %v of fake time after the handshake and no DWR was sent (WatchdogInterval %v)", w.now()-hsAt, w.W)
+		}
+		return
+	}
+	if d := cycles[0].at[0] - hsAt; d < w.W {
+		e.Fail("C13/dwr-too-early", "first DWR %v after the handshake, WatchdogInterval is %v", d, w.W)
+		return
+	}
+	prevEnd := hsAt
+	for ci, c := range cycles {
+		last := ci == len(cycles)-1
+		s := c.at[0]
+		if ci > 0 {
+			if s-cycles[ci-1].at[0] < w.W {
+				e.Fail("C13/dwr-too-early", "cycle %d started %v after cycle %d, WatchdogInterval is %v", ci, s-cycles[ci-1].at[0], ci-1, w.W)
+				return
+			}
+		}
+		if s > prevEnd+w.W {
+			e.Fail("C13/dwr-too-late", "cycle %d started at %v, the previous one ended at %v: more than WatchdogInterval %v later", ci, s, prevEnd, w.W)
+			return
+		}
+		for i := 1; i < len(c.raw); i++ {
+			if !bytes.Equal(c.raw[i], c.raw[0]) {
+				e.Fail("C13/retransmission-differs", "cycle %d: retransmission %d differs from the original DWR", ci, i)
+				return
+			}
+		}
+		// reference: walk the wait windows
+		t0 := s
+		r := 0
+		ambiguous := false
+		end := time.Duration(-1)
+		expectClose := time.Duration(-1)
+		for {
+			// The engine delivers only after the library has settled, so a DWA
+			// delivered at the very instant of a (re)transmission falls into the
+			// window that transmission opens: t0 <= a < t0+I.
+			acked := time.Duration(-1)
+			for _, a := range acks {
+				if a >= t0 && a < t0+w.I && (acked < 0 || a < acked) {
+					acked = a
+				}
+			}
+			if acked >= 0 {
+				end = acked
+				break
+			}
+			if r == w.R {
+				expectClose = t0 + w.I
+				break
+			}
+			r++
+			t0 += w.I
+		}
+		_ = ambiguous
+		wantTx := r + 1
+		if last && closedAt < 0 && end < 0 {
+			// the observation stopped in the middle of this cycle
+			if len(c.at) > wantTx {
+				e.Fail("C13/too-many-retransmissions", "cycle %d: %d transmissions, MaxRetransmits is %d", ci, len(c.at), w.R)
+			}
+			return
+		}
+		if len(c.at) != wantTx {
+			if len(c.at) < wantTx {
+				e.Fail("C13/missing-retransmission", "cycle %d (DWR at %v): %d transmission(s) observed, the reference expects %d (acks delivered at %v, R=%d I=%v)", ci, s, len(c.at), wantTx, acks, w.R, w.I)
+			} else {
+				e.Fail("C13/unexpected-retransmission", "cycle %d (DWR at %v): %d transmissions observed, the reference expects %d (acks delivered at %v, R=%d I=%v)", ci, s, len(c.at), wantTx, acks, w.R, w.I)
+			}
+			return
+		}
+		for i := 1; i < len(c.at); i++ {
+			if c.at[i]-c.at[i-1] != w.I {
+				e.Fail("C13/retransmit-spacing", "cycle %d: retransmission %d came %v after the previous transmission, RetransmitInterval is %v", ci, i, c.at[i]-c.at[i-1], w.I)
+				return
+			}
+		}
+		if expectClose >= 0 {
+			if closedAt < 0 {
+				e.Fail("C13/silent-peer-not-detected", "cycle %d: no success DWA within %d transmissions; the connection should have been closed at %v and is still open at %v", ci, w.R+1, expectClose, w.now())
+				return
+			}
+			if closedAt != expectClose {
+				e.Fail("C13/close-time", "cycle %d: connection closed at %v, the reference expects %v", ci, closedAt, expectClose)
+				return
+			}
+			e.Probe("silent-peer-closed")
+			return
+		}
+		prevEnd = end
+		e.Probe("cycle-acked")
+	}
+	if closedAt >= 0 {
+		e.Fail("C13/responsive-peer-closed", "every watchdog cycle was acknowledged in time and the client closed the connection at %v", closedAt)
+		return
+	}
+	if len(cycles) >= 20 {
+		e.Probe("spared-20-cycles")
+	}
 }
